@@ -514,7 +514,7 @@ def _self_writes(fn):
     return sorted(out)
 
 
-@target("flowFacts2", "Facts", ["C04", "C05", "C07", "C08", "C10", "C12", "C14", "C17", "C20", "C03", "C06"])
+@target("flowFacts2", "Facts", ["C01", "C04", "C05", "C07", "C08", "C10", "C12", "C14", "C15", "C17", "C20", "C03", "C06"])
 def _flow2():
     out = []
     # -- Scaler: user weights are used as given
@@ -598,4 +598,52 @@ def _flow2():
     aug += [ast.unparse(n) for n in ast.walk(fn2) if isinstance(n, ast.AugAssign)]
     out += ["/-- in-place (augmented) assignments inside the rotators' fit (views of the model's arrays must not be written) -/",
             f"def rotatorFitInPlaceOps : List String := [{', '.join(lean_str(x) for x in aug)}]"]
+    # -- Decomposer / _SVD: the function that performs the decomposition in each solver branch
+    for path, qual, nm in (("linalg/decomposer.py", "Decomposer.fit", "decomposerSolverFunctions"), ("linalg/_numpy/_svd.py", "_SVD.fit_transform", "svdSolverFunctions")):
+        src, tree = load(path)
+        fn = find_func(tree, qual)
+        funcs = []
+        for c in ast.walk(fn):
+            if isinstance(c, ast.Call) and ast.unparse(c.func) == "self._svd":
+                args = [ast.unparse(a) for a in c.args]
+                funcs.append((c.lineno, args[-2] if len(args) >= 2 else "?"))
+        out += [f"/-- {header(path, qual, src, fn)}: solver functions handed to `self._svd`, in source order (exact, randomised, complex, dask) -/",
+                f"def {nm} : List String := [{', '.join(lean_str(f) for _, f in sorted(funcs))}]"]
+    # -- dask branch keeps the documented number of power iterations
+    src, tree = load("linalg/decomposer.py")
+    fn = find_func(tree, "Decomposer.fit")
+    sd = [ast.unparse(c) for c in ast.walk(fn) if isinstance(c, ast.Call) and ast.unparse(c.func) == "solver_kwargs.setdefault"]
+    out += ["/-- defaults the dask branch of `Decomposer.fit` puts into the solver options -/",
+            f"def decomposerDaskDefaults : List String := [{', '.join(lean_str(x) for x in sd)}]"]
+    # -- accessors never re-name (or otherwise write into) the arrays stored in the model's result container
+    offenders = []
+    for sub in ("single", "cross", "multi", "validation"):
+        d = os.path.join(SRC, sub)
+        for fname in sorted(os.listdir(d)):
+            if not fname.endswith(".py"):
+                continue
+            src, tree = load(sub + "/" + fname)
+            for fn in [n for n in ast.walk(tree) if isinstance(n, ast.FunctionDef)]:
+                if fn.name.startswith("_") or fn.name in ("fit", "compute"):
+                    continue
+                # last assignment to each local name before every attribute write, in source order
+                events = []
+                for st in ast.walk(fn):
+                    if isinstance(st, ast.Assign):
+                        for t in st.targets:
+                            if isinstance(t, ast.Name):
+                                is_direct = isinstance(st.value, ast.Subscript) and ast.unparse(st.value.value) == "self.data"
+                                events.append((st.lineno, "bind", t.id, is_direct, st))
+                            elif isinstance(t, ast.Attribute) and isinstance(t.value, ast.Name):
+                                events.append((st.lineno, "write", t.value.id, None, st))
+                            elif isinstance(t, ast.Attribute) and isinstance(t.value, ast.Subscript) and ast.unparse(t.value.value) == "self.data":
+                                offenders.append(f"{sub}/{fname}:{fn.name}:{ast.unparse(st)}")
+                state = {}
+                for _, kind_, nm_, is_direct, st in sorted(events, key=lambda e: e[0]):
+                    if kind_ == "bind":
+                        state[nm_] = is_direct
+                    elif state.get(nm_):
+                        offenders.append(f"{sub}/{fname}:{fn.name}:{ast.unparse(st)}")
+    out += ["/-- public accessors that assign an attribute (e.g. `.name`) of an array taken directly from the result container -/",
+            f"def accessorsWritingStoredArrays : List String := [{', '.join(lean_str(x) for x in offenders)}]"]
     return "\n".join(out) + "\n"
